@@ -23,6 +23,17 @@ Section CompleteLemmas.
   Definition opt_word (k : str) (sp : ospec) : str :=
     [DASH; DASH] ++ k ++ (match os_kind sp with KBool => [] | _ => [61] end).
 
+  Lemma contains_byte_app c a b : contains_byte c (a ++ b) = (contains_byte c a || contains_byte c b)%bool.
+  Proof. induction a as [|x a IH]; simpl; [reflexivity|]. rewrite IH. apply Bool.orb_assoc. Qed.
+
+  (* `k=` can only be a prefix of a text that contains `=` *)
+  Lemma no_eq_no_value_prefix (k p : str) : contains_byte 61 p = false -> prefixb (k ++ [61]) p = false.
+  Proof.
+    intros NE. destruct (prefixb (k ++ [61]) p) eqn:P; [|reflexivity].
+    apply prefixb_spec in P as [r ->]. rewrite !contains_byte_app in NE. simpl in NE.
+    rewrite Bool.orb_true_r in NE. discriminate.
+  Qed.
+
   (* C17, options: for a last word without '=', the options offered are precisely the keys (names
      and aliases, inherited ones included: whatever is in the level's table) that start with the
      typed text; the lone dash is offered only for the word "-" *)
@@ -36,12 +47,12 @@ Section CompleteLemmas.
     intros NE. unfold option_base. rewrite sort_strs_In, in_flat_map. split.
     - intros ([k oid] & I & H). simpl in H. destruct (nth_error specs oid) as [sp|] eqn:S; [|contradiction].
       exists k, oid, sp. split; [exact I|]. split; [exact S|].
-      unfold Complete.opt_entry in H. rewrite NE in H. simpl andb in H. cbv iota in H. rewrite app_nil_r in H.
+      unfold Complete.opt_entry in H. rewrite (no_eq_no_value_prefix k _ NE) in H. rewrite app_nil_r in H.
       destruct (str_eqb_spec k [DASH]) as [->|Nk].
       + destruct (str_eqb_spec w [DASH]) as [->|]; [|contradiction]. destruct H as [<-|[]]. left. auto.
       + destruct (prefixb (strip_dashes w) k) eqn:P; [|contradiction]. destruct H as [<-|[]]. right. auto.
     - intros (k & oid & sp & I & S & H). exists (k, oid). split; [exact I|]. simpl. rewrite S.
-      unfold Complete.opt_entry. rewrite NE. simpl andb. cbv iota. rewrite app_nil_r.
+      unfold Complete.opt_entry. rewrite (no_eq_no_value_prefix k _ NE). rewrite app_nil_r.
       destruct H as [(-> & -> & ->)|(Nk & P & ->)].
       + rewrite !str_eqb_refl. left; reflexivity.
       + apply str_eqb_neq in Nk. rewrite Nk, P. left; reflexivity.
@@ -51,10 +62,9 @@ Section CompleteLemmas.
      values and the results of its value function, restricted to those that extend the typed word,
      rendered per target *)
   Theorem value_candidates t w k sp :
-    contains_byte 61 (strip_dashes w) = true -> k <> [DASH] ->
-    prefixb (strip_dashes w) k = false ->
+    k <> [DASH] -> prefixb (strip_dashes w) k = false ->
     opt_entry t w (strip_dashes w) k sp =
-      if prefixb k (strip_dashes w) then
+      if prefixb (k ++ [61]) (strip_dashes w) then
         let cand e := [DASH; DASH] ++ k ++ [61] ++ e in
         List.map (render t) (List.filter (fun c => prefixb w c) (List.map cand (os_suggested sp))) ++
         match os_sfn sp with
@@ -63,7 +73,7 @@ Section CompleteLemmas.
         end
       else [].
   Proof.
-    intros E Nk NP. unfold Complete.opt_entry. apply str_eqb_neq in Nk. rewrite Nk, NP, E. simpl. reflexivity.
+    intros Nk NP. unfold Complete.opt_entry. apply str_eqb_neq in Nk. rewrite Nk, NP. simpl. reflexivity.
   Qed.
 
   (* C17, commands and arguments *)
